@@ -195,7 +195,7 @@ func c33(c *an.Check) {
 
 func init() {
 	register(&Def{ID: "C33", Run: c33,
-		Explain:     "Decides on SSA: (LOCKSET) valCount, rigidRef and ref of the hold-open handler are touched only under its mutex and Controller.cleanupRefs only under the controller mutex; (ATOMIC) the asynchronously acquired strong reference is stored only in a critical section that itself re-checks 'no reference held' and 'at least one link exists'; the reference is released only when one is held and (on removal) the link count reached zero, and the slot is cleared before unlocking; the counter is updated exactly once per add/remove notification. EQUIV obligations of establishLinkWithPeer; (WHO) the tptaddr dial sub-resolvers attach no values to the link request.",
+		Explain:     "Decides on SSA: (LOCKSET) valCount, rigidRef and ref of the hold-open handler are touched only under its mutex and Controller.cleanupRefs only under the controller mutex; (ATOMIC) the asynchronously acquired strong reference is stored only in a critical section that itself re-checks 'no reference held' and 'at least one link exists'; the reference is released only when one is held and (on removal) the link count reached zero, and the slot is cleared before unlocking; the counter is updated exactly once per add/remove notification. EQUIV obligations of establishLinkWithPeer; (WHO) the tptaddr dial sub-resolvers attach no values to the link request. (PROVENANCE) the link counter is updated in the notification callbacks themselves, not in a spawned literal; (MUSTCALL) an acquired strong reference is stored in the slot or released on every path.",
 		NotCov:      "quiescent equality (reference held ⇔ links exist) over all schedules, and the directive instance's own reference counting.",
 		Assumptions: commonAssumptions})
 }
